@@ -993,7 +993,34 @@ func (r *Run) conv(fr *frame, instr *ssa.Convert, tdst, tsrc types.Type, x Value
 				if xv.concrete() {
 					return r.tt.Const(ds, floatToInt(xv.v, db.Kind()))
 				}
-				return r.freshBV("f2i", ds)
+				var iv *Term
+				if lo, hi, ok := realBounds(xv.t, 0); xv.t != nil && ok {
+					// the value's magnitude is bounded by the term's structure: a narrower
+					// fresh variable, sign-extended, is enough (and far easier on the solver)
+					m := new(big.Rat).Abs(lo)
+					if h := new(big.Rat).Abs(hi); h.Cmp(m) > 0 {
+						m = h
+					}
+					bits := new(big.Int).Quo(m.Num(), m.Denom()).BitLen() + 2
+					if bits < int(ds) {
+						iv = r.tt.SExt(r.freshBV("f2i", Sort(bits)), ds)
+					}
+				}
+				if iv == nil {
+					iv = r.freshBV("f2i", ds)
+				}
+				if xv.t != nil {
+					// truncation toward zero, defined by its real-arithmetic characterisation
+					// (the value is assumed to lie in the range of the destination type)
+					ri := r.tt.ToReal(iv, isSigned(tdst))
+					one := r.tt.RConst(new(big.Rat).SetInt64(1))
+					zero := r.tt.RConst(new(big.Rat))
+					pos := r.tt.And(r.tt.RBin(OpRLe, ri, xv.t), r.tt.RBin(OpRLt, xv.t, r.tt.RBin(OpRAdd, ri, one)))
+					neg := r.tt.And(r.tt.RBin(OpRLt, r.tt.RBin(OpRSub, ri, one), xv.t), r.tt.RBin(OpRLe, xv.t, ri))
+					r.addPC(r.tt.Ite(r.tt.RBin(OpRLe, zero, xv.t), pos, neg))
+					r.noteAssumption("float-to-integer conversion truncates toward zero; values outside the destination type's range are not explored")
+				}
+				return iv
 			}
 		}
 	}
